@@ -42,7 +42,7 @@ def main():
             f.write(core.jdump({"sub": v.sub, "case": v.case, "message": v.message}))
         flush_stats()
 
-    ADV = ["x", "_none", "_tag_", "t_", "f_", "_field_", "t", "f", "_", "", ",", '"', "\r", "\n", "\r\n", "\0", " ", "_default", "-1", "1.0", "nan"]
+    ADV = ["x", "_none", "__none", "_tag_", "t_", "f_", "_field_", "t", "f", "_", "", ",", '"', "\r", "\n", "\r\n", "\0", " ", "_default", "-1", "1.0", "nan"]
 
     def text(fdp):
         k = fdp.ConsumeIntInRange(0, 3)
